@@ -331,6 +331,8 @@ func (in *Interp) mathUF1(name string, x *term.Term) *term.Term {
 		in.addFact(u, imp(ninf, eq(u, c(-1))))
 		in.addFact(u, imp(term.Not(nan(x)), term.And(le(c(-1), u), le(u, c(1)))))
 	case "Erfc":
+		in.addFact(u, imp(le(c(28), x), eq(u, c(0)))) // underflow (erfc(27.3) is already 0)
+		in.addFact(u, imp(le(x, c(26)), term.Flt(c(0), u)))
 		in.addFact(u, imp(pinf, eq(u, c(0))))
 		in.addFact(u, imp(ninf, eq(u, c(2))))
 		in.addFact(u, imp(term.Not(nan(x)), term.And(le(c(0), u), le(u, c(2)))))
@@ -555,6 +557,13 @@ func (in *Interp) interceptByPackage(fn *ssa.Function, name string, args []Value
 				if s.K == term.KFloat && in.job.Mode != "real" {
 					// NaN in, NaN out is common to every special function here
 					if _, done := in.facts[u.ID]; !done {
+						if fn.Name() == "LogErfc" && len(targs) == 1 {
+							// log(erfc(x)) is finite for every finite x (that is the point of
+							// the function: erfc itself underflows beyond x = 27) and at most log 2
+							x := targs[0]
+							fin := term.And(term.Not(term.FisNaN(x)), term.Not(term.FisInf(x, 0)))
+							in.addFact(u, imp(fin, term.And(term.Not(term.FisNaN(u)), term.And(term.Not(term.FisInf(u, 0)), term.Fle(u, term.FloatC(term.F64, 0.6931471805599454))))))
+						}
 						in.facts[u.ID] = append(in.facts[u.ID], term.True)
 					}
 				}
